@@ -275,6 +275,14 @@ func raceOne(m map[string]string) string {
 					}
 				case 19:
 					call("NotifyComplete", func() { t.NotifyComplete(); t.NotifyStop() })
+				case 20:
+					if cr.Chance(30) {
+						call("StartAll", func() { _ = s.StartAll() })
+					}
+				case 21:
+					if s == ss && cr.Chance(5) {
+						call("StopAllStartAll", func() { _ = s.StopAll(); _ = s.StartAll() })
+					}
 				default:
 					time.Sleep(time.Duration(cr.Intn(3)) * time.Millisecond)
 				}
